@@ -129,7 +129,8 @@ def oracle(scn, obs, ref, schedule):
             for j in range(chain_start, r):
                 t = tl[j]
                 if (t[0] == "inject" and t[1].split(":")[0] in ("pause", "suspend")) or t[0] == "suspend_req":
-                    if engine.resumability_at(obs, j) != "yes":
+                    # (the request takes effect a few callbacks after it was issued: judged by the end of the chain)
+                    if engine.resumability_at(obs, j) != "yes" or engine.resumability_at(obs, r) != "yes":
                         allowed.add("abort")
         plan_closed, engine_closed = _stops_by_origin(obs, chain_start, r)
         for doc in engine_closed:
